@@ -87,6 +87,21 @@ def rule_implicit_codes(ctx, rep, config="c-lib"):
             pa = resolve_addr(yp, v.ops[0])
             if pa.steps and pa.steps[-1][0] in ("ptr", "idx") and const_int(pa.steps[-1][1]) == 1:
                 okk += 1
+    def _second_char(op):
+        v = yp.inst(strip_int_casts(yp, op))
+        if v is not None and v.op == "load" and v.ty == "i8":
+            pa = resolve_addr(yp, v.ops[0])
+            return bool(pa.steps and pa.steps[-1][0] in ("ptr", "idx") and const_int(pa.steps[-1][1]) == 1)
+        return False
+    # or handed to a helper of this file that stores its parameter into the code member
+    for c_ in yp.calls():
+        h = p.m.functions.get(c_.callee) if c_.callee else None
+        if h is None or h.decl or h.module != yp.module:
+            continue
+        for k_, a_ in enumerate(c_.args):
+            if _second_char(a_) and any(x.op == "store" and resolve_addr(h, x.ops[1]).last_field() == "sterm.code" and strip_int_casts(h, x.ops[0]) == {"k": "a", "v": k_}
+                                        for x in h.all_insts()):
+                okk += 1
     if okk >= 1:
         rep.ok("C11-codes", "yyparse/char-constant-code", sample={"stores": okk})
     else:
